@@ -110,19 +110,23 @@ func (e *engine) eavCase(m *peer.SignedMsg, ctx string, gen string, authentic *b
 	op := fmt.Sprintf("sign.eav from=%s spk=%s ht=%d sig=%s data=%s ctx=%s",
 		lib.Hex([]byte(m.GetFromPeerId())), lib.Hex(sig.GetPubKey()), int32(sig.GetHashType()), lib.Hex(sig.GetSigData()), lib.Hex(m.GetData()), lib.Hex([]byte(ctx)))
 	model, vbit, _ := e.oracleQuery(op)
+	var pkRaw, idRaw []byte
 	impl := lib.Recover(func() string {
 		pk, id, err := m.ExtractAndVerify(ctx)
 		if err != nil {
 			return "err"
 		}
-		raw, _ := pk.Raw()
-		return fmt.Sprintf("ok pk=%s id=%s", lib.Hex(raw), lib.Hex([]byte(id)))
+		pkRaw, _ = pk.Raw()
+		idRaw = []byte(id)
+		return fmt.Sprintf("ok pk=%s id=%s", lib.Hex(pkRaw), lib.Hex(idRaw))
 	})
 	mon := ""
 	if strings.HasPrefix(impl, "panic") {
 		mon = "ExtractAndVerify panics (" + gen + ")"
 	}
 	if strings.HasPrefix(impl, "ok") {
+		// the claimed sender is a function of the verifying key (no alias encodings)
+		mon = canonicalMonitor(m.GetFromPeerId(), pkRaw, idRaw, gen)
 		// Model-independent monitor: accepted => stdlib verification of the prescribed body under
 		// the key embedded in the claimed sender succeeds. Body recomputed here from the spec text.
 		if authentic != nil && !*authentic {
@@ -141,8 +145,12 @@ func (e *engine) eavCase(m *peer.SignedMsg, ctx string, gen string, authentic *b
 func tr(b bool) *bool { return &b }
 
 func (e *engine) runC01() {
-	e.rep.Rule = "signed messages: honest (3 hash types × sizes 1..4KiB × contexts incl. ones containing the separator), every single-field tamper (data, signature bytes, sender, hash type, context), foreign signature with claimed sender, 2-field tampers, wire-level truncation / bit flips / random bytes through UnmarshalSignedMsg; distinct = distinct op line"
-	e.rep.Require("eav.ok", "eav.emptyBody", "eav.emptyPeerId", "eav.sigInvalid", "eav.badPeerId", "eav.noPubKey", "eav.badSignature", "wire.ok", "wire.errunmarshal")
+	e.rep.Notes = append(e.rep.Notes, "class small-order-key: the neutral-element Ed25519 key verifies the signature (R = neutral, S = 0) for every message under crypto/ed25519; ExtractAndVerify and the wrappers accept it, as does the model given the oracle's answer — outside SigScheme.unforge, recorded not judged")
+	e.rep.Rule = "signed messages: honest (3 hash types × sizes 1..4KiB × contexts incl. ones containing the separator), every single-field tamper (data, signature bytes, sender, hash type, context), foreign signature with claimed sender, 2-field tampers, wire-level truncation / bit flips / random bytes through UnmarshalSignedMsg; alias encodings of the sender's key (11 forms) as claimed sender; stdlib-signed messages; the wrappers pubmessage.ExtractAndVerify, signaling SessionMsg.ExtractAndVerify / Validate, SessionRequest / SessionResponse.Validate on honest + 16 tampered variants each; small-order sender key (not judged); distinct = distinct op line"
+	e.rep.Require("eav.ok", "eav.emptyBody", "eav.emptyPeerId", "eav.sigInvalid", "eav.badPeerId", "eav.noPubKey", "eav.notCanonical", "eav.badSignature", "wire.ok", "wire.errunmarshal", "wire.notCanonical", "wire.badSignature",
+		"wrap.signaling.SessionMsg.ExtractAndVerify.ok", "wrap.signaling.SessionMsg.ExtractAndVerify.err", "wrap.signaling.SessionMsg.Validate.ok", "wrap.signaling.SessionMsg.Validate.err",
+		"wrap.signaling.SessionRequest.Validate.ok", "wrap.signaling.SessionRequest.Validate.err", "wrap.signaling.SessionResponse.Validate.ok", "wrap.signaling.SessionResponse.Validate.err",
+		"wrap.pubmessage.ExtractAndVerify.ok", "wrap.pubmessage.ExtractAndVerify.err")
 	keys := []*key{e.newKey(), e.newKey(), e.newKey()}
 	n := 40 * e.a.Scale
 	for i := 0; i < n; i++ {
@@ -219,6 +227,20 @@ func (e *engine) runC01() {
 		raw := [][]byte{{0x12, 0x02, 0xaa, 0xbb}, {0x00, 0x02, 0x08, 0x01}, append([]byte{0x00, 0x24, 0x08, 0x00, 0x12, 0x20}, k.pub...), append([]byte{0x00, 0x23, 0x08, 0x01, 0x12, 0x1f}, k.pub[:31]...)}[i%4]
 		t.FromPeerId = peer.ID(raw).String()
 		e.eavCase(t, ctx, "sender-not-a-key", tr(false))
+		// alias encodings of the victim's own key as claimed sender (same signature)
+		e.aliasCases(m, k, ctx, i)
+		// … and an attacker presenting its own message under an alias of its own id
+		{
+			an, ai := aliasIDs(keys[(i+1)%3].pub)
+			f3, _ := peer.NewSignedMsg(ctx, keys[(i+1)%3].sk, ht, data)
+			f3.FromPeerId = peer.ID(ai[i%len(ai)]).String()
+			e.eavCase(f3, ctx, "alias-of-own-key/"+an[i%len(ai)], tr(false))
+		}
+		// a message signed with the standard library only (no bifrost signing code) is accepted
+		e.eavCase(stdSigned(k, ctx, int(ht), data), ctx, "honest-stdlib-signed", tr(true))
+		e.lowOrderCase(ctx, int(ht), data)
+		// the wrappers named by the property (pubsub, signaling)
+		e.wrapperCases(keys, i)
 
 		// wire level
 		wire, _ := m.MarshalVT()
@@ -241,6 +263,8 @@ func (e *engine) runC01() {
 func (e *engine) wireCase(wire []byte, ctx string, gen string, authentic *bool) {
 	op := fmt.Sprintf("sign.eavwire wire=%s ctx=%s", lib.Hex(wire), lib.Hex([]byte(ctx)))
 	model, vbit, _ := e.oracleQuery(op)
+	var pkRaw, idRaw []byte
+	from := ""
 	impl := lib.Recover(func() string {
 		m, err := peer.UnmarshalSignedMsg(wire)
 		if err != nil {
@@ -250,12 +274,20 @@ func (e *engine) wireCase(wire []byte, ctx string, gen string, authentic *bool) 
 		if err != nil {
 			return "err"
 		}
-		raw, _ := pk.Raw()
-		return fmt.Sprintf("ok pk=%s id=%s", lib.Hex(raw), lib.Hex([]byte(id)))
+		from = m.GetFromPeerId()
+		pkRaw, _ = pk.Raw()
+		idRaw = []byte(id)
+		return fmt.Sprintf("ok pk=%s id=%s", lib.Hex(pkRaw), lib.Hex(idRaw))
 	})
 	mon := ""
 	if strings.HasPrefix(impl, "panic") {
 		mon = "signed message decoder panics (" + gen + ")"
+	}
+	if strings.HasPrefix(impl, "ok") {
+		mon = canonicalMonitor(from, pkRaw, idRaw, gen)
+		if authentic != nil && !*authentic {
+			mon = "accepted a wire message that is not authentic (" + gen + ")"
+		}
 	}
 	if strings.HasPrefix(impl, "ok") && vbit == 0 {
 		mon = "accepted wire message whose signature does not verify (" + gen + ")"
@@ -302,8 +334,9 @@ func (e *engine) vwpCase(s *peer.Signature, ctx string, pk *key, data []byte, ge
 }
 
 func (e *engine) runC02() {
-	e.rep.Rule = "detached signatures: cross-key × cross-context × cross-hash-type × data matrix over freshly created signatures; hash type sweep -2..6 and int32 max; empty/short/long signature bytes; Signature.Validate with garbage embedded keys; sign body vs model; distinct = distinct op line"
-	e.rep.Require("vwp.ok1", "vwp.ok0", "vwp.err", "validate.ok", "validate.err", "body")
+	e.rep.Rule = "detached signatures: cross-key × cross-context × cross-hash-type × data matrix over freshly created signatures; hash type sweep -2..6 and int32 max; empty/short/long signature bytes; Signature.Validate with garbage embedded keys; sign body vs model; constructors NewSignature (9 hash type values × inclPubKey, embedded key bytes) and NewSignatureWithHashedData (7 hash types × digest / short / long / empty / odd / other-algorithm digest / value smuggling the separator × inclPubKey); small-order key (not judged); distinct = distinct op line"
+	e.rep.Notes = append(e.rep.Notes, "class small-order-key: the neutral-element Ed25519 key verifies (R = neutral, S = 0) for every body under crypto/ed25519; VerifyWithPublic says true, as does the model given the oracle's answer — outside SigScheme.unforge, recorded not judged")
+	e.rep.Require("vwp.ok1", "vwp.ok0", "vwp.err", "validate.ok", "validate.err", "body", "newsig.ok", "newsig.err", "hashed.ok", "hashed.err")
 	keys := []*key{e.newKey(), e.newKey(), e.newKey()}
 	n := 25 * e.a.Scale
 	for i := 0; i < n; i++ {
@@ -406,6 +439,7 @@ func (e *engine) runC02() {
 			}
 			e.rep.Compare(opv, mv, iv, "validate."+mv, "sign.validate", monv)
 		}
+		e.ctorCases(keys, i)
 	}
 	_ = bytes.Equal
 }
